@@ -69,7 +69,7 @@ def run(res, tier):
     outsteps = [0, 1, 2, 3, 5, 10, 11]
     saves = [0, 1, 2]
     tracks = [None, 0, 1, 2]
-    if tier == "thorough":
+    if vlib.wide(tier):
         cfgs = [dict(outstep=o, save=s, track=t, verbose=v, name=nm, renorm=r, rf=rf, imp=imp, n=n, mod=mod, start=st)
                 for o, s, t, v, nm, r, rf, imp, n, mod, st in itertools.product(outsteps, saves, tracks, [0, 1], ["a", "b_other_name"], [-1, 0, 3], ["linear", "sin"], ["collimator", "none", "csr"], [16, 15], [0, 1], [0, 1])
                 if ((imp == "collimator" and n == 16 and mod == 0) or (t in (None, 1) and nm == "a" and (n == 16 or v == 0) and (mod == 0 or (v == 0 and imp != "csr"))))
@@ -169,7 +169,7 @@ def run(res, tier):
     res.coverage["distinct_final_phase_spaces_per_physics_key"] = {str(k): len(v) for k, v in finals.items()}
     res.rule = ("one evaluation = one run of the real binary (each configuration twice); cases = cadence x save cadence x tracking x verbosity x name x renormalisation x RF model; "
                 "distinct = hash of configuration + phase-space record hashes; every record is compared bitwise (FNV of the raw bytes) with the run that writes every step")
-    res.bounds_done.append("%d configurations x 2 repetitions (%s)" % (len(cfgs), "full product" if tier == "thorough" else "full cadence product for 3 physics keys + single deviations"))
+    res.bounds_done.append("%d configurations x 2 repetitions (%s)" % (len(cfgs), "full product" if vlib.wide(tier) else "full cadence product for 3 physics keys + single deviations"))
     return None
 
 
